@@ -630,4 +630,45 @@ theorem union_str_reads_as_earlier_type_witness :
       .ok (.obj (s "Root") [(s "a", .none), (s "b", .list [.prim (.bool true)])], 0) :=
   ⟨by decide, by decide, rfl, rfl, rfl, rfl⟩
 
+/-! #### QName-typed elements -/
+
+def featF10 : Feat :=
+  { nillable := true, tokens := true, wrapper := true, sequence := true, fixed := true, anyAttrs := true,
+    inherit := true, wildcard := true, union := true, qname := true }
+
+/-- **C01, fragment F10** = F9 + element vars of type `QName` (`Optional[QName]` with default `None`, or
+`List[QName]`).  The value must have an NCName local part (`typeNameOK`); its namespace gets a prefix of
+the document's prefix map.  The hypothesis on the prefix map is exact and internal: the parser half of
+the proof is stated under `TypesGood e M evs` (what the writer makes of every QName written in `evs`,
+`qnameText M t`, is resolved back to `t` under `M`), which `prefixMap (collectUris evs)` satisfies
+(`Proofs.C01.typesGood_prefixMap`). -/
+theorem bind_generate_F10 (e : BEnv) (Γ : Ctx) (cfg : SerCfg) (pcfg : ParserConfig) (c : ClassId) (v : Val)
+    (hΓ : ctxOK featF10 Γ = true) (hv : valOKI true e Γ c v = true) :
+    ∃ evs t, generate e Γ cfg v = .ok evs ∧ eventsTree (isDatatype Γ) evs = .ok t ∧
+      parseRoot e Γ pcfg c t = .ok (v, 0) :=
+  bind_generate_FN featF10 e Γ cfg pcfg c v hΓ hv
+
+def qA : XmlVar := mkVarN 1 "a" "a" .element [.prim .qname]
+def qB : XmlVar := mkVarN 2 "b" "b" .element [.prim .qname] (listElement := true) (default := .listFactory)
+def Γ10 : Ctx := rootOnly [qA, qB] [] none [⟨s "a", true, some .none⟩, ⟨s "b", true, some (.list [])⟩]
+
+def v10 : Val := .obj (s "Root")
+  [(s "a", .prim (.qname (s "{urn:a}n1"))),
+   (s "b", .list [.prim (.qname (s "n2")), .prim (.qname (s "{urn:q}n1")), .prim (.qname (s "{urn:a}n2"))])]
+
+example : ctxOK featF10 Γ10 = true ∧ ctxOK featF9 Γ10 = false ∧ valOKI true e0 Γ10 (s "Root") v10 = true := by
+  decide
+example : ∃ evs t, generate e0 Γ10 {} v10 = .ok evs ∧ eventsTree (isDatatype Γ10) evs = .ok t ∧
+    parseRoot e0 Γ10 {} (s "Root") t = .ok (v10, 0) :=
+  bind_generate_F10 e0 Γ10 {} {} (s "Root") v10 (by decide) (by decide)
+
+/-- the document: one prefix per namespace, in order of first use -/
+example : (match treeOf Γ10 v10 with
+    | .node _ _ _ _ kids _ => kids.map (fun k => match k with | .node _ _ _ t _ _ => t)) =
+    [some (s "q0:n1"), some (s "n2"), some (s "q1:n1"), some (s "q0:n2")] := by rfl
+
+/-- a QName whose local part is no NCName is outside the fragment -/
+example : valOKI true e0 Γ10 (s "Root")
+    (.obj (s "Root") [(s "a", .prim (.qname (s "{urn:a}n 1"))), (s "b", .list [])]) = false := by decide
+
 end Props.C01
